@@ -15,26 +15,24 @@ CONSTANTS
  Tries = 2
  NextHop = 4 Unstable = 24 CacheTO = 4 Inactive = 8 RemoveDelay = 2 SweepEvery = 2 PingEvery = 3 MaxTime = 1000
  CreateGuard = TRUE
- MaxCircuits = 2 MaxData = 1 MaxLoss = 1 MaxDup = 0 MaxAdv = 1 MaxNow = 0
+ MaxCircuits = 2 MaxData = 2 MaxLoss = 0 MaxDup = 0 MaxAdv = 1 MaxNow = 0
  Goals = {1}
  Origins = {o, o2}
- AdvKinds = {"create", "destroy"}
+ AdvKinds = {"rpforge", "tamper"}
  NodeRank <- RankDef
  AdvSrcs = {adv}
- TrackWire = FALSE
+ TrackWire = TRUE
  UseIds = FALSE
  NodeTeardown = FALSE
  MayVanish = FALSE
  SweepRelays = TRUE
- E2E = FALSE
+ E2E = TRUE
  Aead = TRUE
  CheckIdent = TRUE
  AutoTimers = TRUE
 INVARIANT TypeOK
-INVARIANT NoShadow
-INVARIANT ExitOnlyOwn
-INVARIANT ReturnIntegrity
 INVARIANT ExitIntegrity
-PROPERTY EntriesStable
-PROPERTY DestroyOnlyFromNeighbour
-PROPERTY UnknownCellsInert
+INVARIANT ReturnIntegrity
+INVARIANT LayerDepth
+INVARIANT E2ELayers
+INVARIANT NoRepeatOnLinks
